@@ -176,6 +176,7 @@ type vfMapper struct {
 	rec    *Recorder
 	att    int
 	calls  int
+	cancel func() // non-nil: called just before a planned failure (the mapper stops the application, then fails)
 }
 
 func (m *vfMapper) MysqlTable(name gobinlog.MysqlTableName) (gobinlog.MysqlTable, error) {
@@ -189,6 +190,9 @@ func (m *vfMapper) MysqlTable(name gobinlog.MysqlTableName) (gobinlog.MysqlTable
 			m.rec.Emit(M{"ev": "mapperCall", "att": m.att, "db": B(name.DbName), "tbl": B(name.TableName), "res": res})
 		}
 	}()
+	if m.cancel != nil && (m.fault == "err:"+key || m.fault == "mismatch:"+key) {
+		m.cancel()
+	}
 	if m.fault == "err:"+key {
 		res = "err"
 		return nil, errors.New("vf: mapper failure for " + key)
@@ -348,6 +352,8 @@ type AttemptPlan struct {
 	SkipError         bool // the caller does not call Error() after this attempt (Stream already returned an error)
 	HookTrace         bool // record the library's hook points of this attempt (implementation-level trace)
 	HookFuzz          uint64 // non-zero: seeded pseudo-random delays at every hook point
+	MapperCancels     bool       // the table mapper cancels the attempt's context just before it fails (MapperFault)
+	LeakFirst         bool       // look for goroutines left behind BEFORE the first Error() call (a caller need not call Error() for them to go away)
 	Script            [][]string // non-nil: a behaviour of MC_Conn (Gen_Conn.tla) replayed with the hook points as scheduler gates
 }
 
@@ -359,7 +365,7 @@ func (a AttemptPlan) J() M {
 	m := M{"pacing": a.Pacing, "end": a.End, "connfault": orNone(a.ConnFault), "handlerErrAt": a.HandlerErrAt,
 		"mapperFault": orNone(a.MapperFault), "handlerErrKind": orNone(a.HandlerErrKind), "cancelAtTx": a.CancelAtTx, "cancelAtPkt": a.CancelAtPkt,
 		"handlerBlock": a.HandlerBlock, "releaseDelayMs": a.ReleaseDelayMs, "scribble": a.Scribble, "dead": a.Dead, "cancelAfterReturn": a.CancelAfterReturn,
-		"logDelayMs": a.LogDelayMs, "skipError": a.SkipError, "hookTrace": a.HookTrace, "hookFuzz": a.HookFuzz != 0, "scripted": a.Script != nil}
+		"logDelayMs": a.LogDelayMs, "skipError": a.SkipError, "hookTrace": a.HookTrace, "hookFuzz": a.HookFuzz != 0, "scripted": a.Script != nil, "leakFirst": a.LeakFirst, "mapperCancels": a.MapperCancels}
 	if a.Fault != nil {
 		m["fault"] = M{"kind": a.Fault.Kind, "at": a.Fault.At, "code": int(a.Fault.Code), "msg": B(a.Fault.Msg)}
 	} else {
@@ -397,6 +403,8 @@ type StreamScenario struct {
 	// RejectAfterP1 > 0: the history re-announces a table with a column count the mapper's table does not have; the
 	// stream must end with an error after exactly this many transactions
 	RejectAfterP1 int // (value + 1; 0 = none)
+	// JSONStates: every delivery also carries, per cell, how json.Marshal rendered it (absent / null / str) - C20 end to end
+	JSONStates bool
 	// Model: for sessions generated by TLC (Gen_Session) the model's per-attempt predictions, copied into the scenario line
 	Model interface{}
 }
@@ -570,6 +578,7 @@ func (rs *runState) runAttempt(att int, a AttemptPlan, dsnOverride string) {
 	rs.mapper.mu.Lock()
 	rs.mapper.fault = a.MapperFault
 	rs.mapper.att = att
+	rs.mapper.cancel = nil
 	rs.mapper.mu.Unlock()
 
 	ctx, cancel := context.WithCancel(context.Background())
@@ -586,6 +595,11 @@ func (rs *runState) runAttempt(att int, a AttemptPlan, dsnOverride string) {
 		cancel()
 	}
 
+	if a.MapperCancels {
+		rs.mapper.mu.Lock()
+		rs.mapper.cancel = func() { doCancel("mapper") }
+		rs.mapper.mu.Unlock()
+	}
 	handlerRelease := make(chan struct{})
 	var releaseOnce sync.Once
 	release := func() { releaseOnce.Do(func() { close(handlerRelease) }) }
@@ -673,6 +687,9 @@ func (rs *runState) runAttempt(att int, a AttemptPlan, dsnOverride string) {
 			pat = 0x80 + len(rs.kept)%100
 		}
 		pj["pat"] = pat
+		if sc.JSONStates {
+			pj["jstates"] = jsonStates(t)
+		}
 		rec.Emit(pj)
 		rs.kept = append(rs.kept, t)
 		rs.snap = append(rs.snap, projTx(t))
@@ -904,6 +921,16 @@ func (rs *runState) runAttempt(att int, a AttemptPlan, dsnOverride string) {
 		doCancel("after-return")
 	}
 
+	leakDone := false
+	if a.LeakFirst && errPending == nil && errCalls == 0 {
+		// no library goroutine may remain after Stream returned, whether or not the caller goes on to call Error()
+		left := waitNoNewLibraryGoroutines(baseG, waitBound)
+		if left == nil {
+			left = []string{}
+		}
+		rec.Emit(M{"ev": "goroutines", "att": att, "left": left, "n": len(left), "beforeError": true})
+		leakDone = true
+	}
 	// an Error() call the script started and did not see return: it must return now
 	if errPending != nil {
 		select {
@@ -958,11 +985,14 @@ func (rs *runState) runAttempt(att int, a AttemptPlan, dsnOverride string) {
 		rec.Emit(M{"ev": "sock", "att": att, "peerClosed": closed, "masterEnded": masterEnded, "sent": sent,
 			"ms": int(time.Since(tRet) / time.Millisecond)})
 	}
+	if leakDone {
+		return
+	}
 	left := waitNoNewLibraryGoroutines(baseG, waitBound)
 	if left == nil {
 		left = []string{}
 	}
-	rec.Emit(M{"ev": "goroutines", "att": att, "left": left, "n": len(left)})
+	rec.Emit(M{"ev": "goroutines", "att": att, "left": left, "n": len(left), "beforeError": false})
 	// abandon leaked goroutines of this attempt so that the next attempt starts clean: closing the
 	// master's side of the connection unblocks a reader stuck in ReadPacket.
 	if len(left) > 0 && connRec != nil {
